@@ -92,8 +92,41 @@ def replay_row_records(job):
     return {"violated": bool(d), "detail": d or ""}
 
 
+def _fixtures(names):
+    """re-save documents authored in Numbers (component files named with an identifier suffix, stored merge maps, styles) through the
+    stand-in's independent validator"""
+    from bounded import c07_package as V, docsnap
+    warnings.simplefilter("ignore")
+    for f in docsnap.fixtures():
+        if os.path.basename(f) in names:
+            for twice in (False, True):
+                case = {"path": f, "twice": twice}
+                r = V.run_case(case)
+                d = _other_than_null_reference((r or {}).get("detail"))
+                if d:
+                    return {"violated": True, "detail": d, "job": {"custom": "replay_fixture", "case": case}}
+    return {"violated": False}
+
+
+def _other_than_null_reference(detail):
+    """the open known finding F-C07-1 (Reference(identifier=0) of tables the library creates) is the stand-in's to report, not this search's"""
+    if not detail:
+        return None
+    head, _, rest = detail.partition(": ")
+    errs = [e for e in detail.split(" | ") if not e.rstrip().endswith("missing objects [0]")]
+    return " | ".join(errs) if errs else None
+
+
+def replay_fixture(job):
+    from bounded import c07_package as V
+    warnings.simplefilter("ignore")
+    d = _other_than_null_reference((V.run_case(job["case"]) or {}).get("detail"))
+    return {"violated": bool(d), "detail": d or ""}
+
+
 def search_store(job):
-    return _try(["tables", "styles", "formats", "image", "shape:300x2"], ["ids", "inventory", "closure", "open"])
+    r = _try(["tables", "styles", "formats", "image", "shape:300x2"], ["ids", "inventory", "closure", "open"])
+    return r if r["violated"] else _fixtures(("test-2.numbers", "issue-77.numbers", "issue-10.numbers", "test-8.numbers", "test-1.numbers"))
 
 
 def replay_kind(job):
